@@ -182,7 +182,8 @@ func RunC05(c *core.Ctx) {
 		"COSE_Mac0 stripped, tags 16/17 swapped or replaced, IV dropped / resized / altered, algorithm header moved / changed / removed, ciphertext emptied, " +
 		"truncated, extended, replaced by plaintext or by another session's ciphertext, wires fed to every other suite and to other keys, generic CBOR " +
 		"mutations. Model (extracted crypter_decrypt, AES/HMAC via stdlib oracle) vs SessionCrypter.Decrypt; monitor on the implementation alone: honest " +
-		"round-trips, anything else is rejected or yields the identical plaintext, no panic. non-trivial = wire parsed as a tag; distinct = distinct case line"
+		"round-trips, anything else is rejected or yields the identical plaintext, no panic; forged COSE_Mac0 tag items (every byte flipped, every truncation, " +
+		"extensions, other key/data, non-byte-strings) on genuine messages between two real sessions in both directions are refused. non-trivial = wire parsed as a tag; distinct = distinct case line"
 	c.Trivial = func(o core.Obs) bool { return false }
 	suites := allSuites()
 	sizes := []int{1, 14, 15, 16, 17, 31, 32, 33, 100, 1300}
@@ -385,6 +386,8 @@ func RunC05(c *core.Ctx) {
 			}
 		}
 	}
+	// forged COSE_Mac0 tags on genuine messages between two real sessions, both directions (mac0_more.go)
+	runMac0Verify(c, true)
 	runC05Protocol(c)
 	runC05Device(c)
 }
